@@ -104,6 +104,11 @@ def result_of(case: dict, scratch) -> dict:
             "file": trip(g, via_file)}
 
 
+def judge_env(cases_file) -> dict:
+    """The judge pass must not re-run the spec's Generate (TLC evaluates unused constant definitions too)."""
+    return {"JUDGE_CASES": str(cases_file), "CASES_FILE": "none"}
+
+
 def run(ctx):
     consts = {"MaxN": "3", "MaxPayN": "2", "MaxRichN": "2" if ctx.quick else "3", "MaxOps": "2" if ctx.quick else "3"}
     cases_file, cases = p3.generate(ctx, "GraphSerde", consts)
@@ -111,7 +116,7 @@ def run(ctx):
     results = [result_of(c, ctx.scratch) for c in cases]
     rf = ctx.scratch / "c12_results.json"
     rf.write_text(json.dumps(results))
-    bad = p3.judge(ctx, "GraphSerde", consts, cases_file, rf)
+    bad = p3.judge(ctx, "GraphSerde", consts, cases_file, rf, env=judge_env(cases_file))
     plain = [c for c in cases if c["kind"] == "plain"]
     nfl = len(cases) - len(plain)
     term_out = sum(1 for c, r in zip(cases, results) if c["kind"] == "plain" and c["nodes"] and c["nodes"][-1]["outs"])
@@ -147,3 +152,20 @@ def run(ctx):
                         "(callable, args, kwargs) tuples whose callables are importable (dill stores them by reference); "
                         "payload objects with their own `serialise` method are outside the domain; the JSON round trip is "
                         "judged only on graphs whose payloads JSON represents faithfully (no tuples, no non-string keys)"]
+
+
+def replay(ctx, rep) -> int:
+    """./check C12 --replay <file>: run the recorded case through the real code again and let TLC judge it."""
+    case = rep["replay"]["case"]
+    consts = {"MaxN": "3", "MaxPayN": "2", "MaxRichN": "2", "MaxOps": "2"}
+    cf = ctx.scratch / "c12_replay_cases.json"
+    cf.write_text(json.dumps([case]))
+    result = result_of(case, ctx.scratch)
+    rf = ctx.scratch / "c12_replay_results.json"
+    rf.write_text(json.dumps([result]))
+    bad = p3.judge(ctx, "GraphSerde", consts, cf, rf, tag="replay", env=judge_env(cf))
+    if bad:
+        print(f"VIOLATION property=C12 replay reproduces {sorted(bad[1])}: {json.dumps(result)[:400]}")
+        return 1
+    print("OK property=C12 replay: the recorded case satisfies the post-condition on this tree")
+    return 0
